@@ -283,8 +283,30 @@ def single_return_value(ctx, h: Func, depth=0) -> Optional[ast.AST]:
     return val
 
 
+_MUTATORS = ('append', 'extend', 'insert', 'update', 'add', 'pop', 'remove', 'clear', 'sort', 'reverse', 'setdefault',
+             'discard', 'popitem', '__setitem__', '__delitem__')
+_MUTATED: Dict[int, set] = {}
+
+
+def mutated_locals(f: Func) -> set:
+    """local names whose object is changed in place (x.append(..), x[k] = .., del x[k]): their defining expression is not
+    their value at a later use, so they must stay opaque atoms"""
+    k = id(f.node)
+    if k not in _MUTATED:
+        out = set()
+        for n in walk_no_nested(f.node, include_lambdas=True):
+            if isinstance(n, ast.Call) and isinstance(n.func, ast.Attribute) and isinstance(n.func.value, ast.Name) and \
+                    n.func.attr in _MUTATORS:
+                out.add(n.func.value.id)
+            elif isinstance(n, ast.Subscript) and isinstance(n.ctx, (ast.Store, ast.Del)) and isinstance(n.value, ast.Name):
+                out.add(n.value.id)
+        _MUTATED[k] = out
+        f._keep = f.node
+    return _MUTATED[k]
+
+
 def deep(ctx, f: Func, expr: ast.AST, at=None, depth=0) -> ast.AST:
-    e = Expander(ctx.prog, f, ctx.typer).expand(expr, at)
+    e = Expander(ctx.prog, f, ctx.typer).expand(expr, at, stop=mutated_locals(f))
     if depth > 4:
         return e
 
@@ -1477,12 +1499,107 @@ def check_network(ctx, o, osk):
         ps = [p for p in paths(T.body, atoms) if p.exit != 'raise']
         tpred = ast.parse(f"{t}.predecessors", mode='eval').body
 
+        supersets = {}
+
+        def grows_from_preds(x):
+            """local collection seeded with t.predecessors and only ever extended: None | 'alias' | 'superset'"""
+            if not isinstance(x, ast.Name):
+                return None
+            ds = flow_of(f).defs_of(x.id)
+            seeds = [d for d in ds if d.kind == 'assign' and d.value is not None]
+            if len(seeds) != 1 or any(d.kind not in ('assign', 'aug') for d in ds):
+                return None
+            v = deep(ctx, f, seeds[0].value, seeds[0].node)
+
+            def has_seed(e):
+                e = strip_seq(e)
+                if isinstance(e, ast.Call) and isinstance(e.func, ast.Name) and e.func.id in ('set', 'frozenset') and len(e.args) == 1:
+                    e = strip_seq(e.args[0])
+                if same(e, tpred):
+                    return True
+                if isinstance(e, ast.BinOp) and isinstance(e.op, (ast.Add, ast.BitOr)):
+                    return has_seed(e.left) or has_seed(e.right)
+                if isinstance(e, (ast.List, ast.Tuple, ast.Set)):
+                    return any(isinstance(el, ast.Starred) and has_seed(el.value) for el in e.elts)
+                return False
+            if not has_seed(v):
+                return None
+            if any(d.kind == 'aug' and not isinstance(d.stmt.op, (ast.Add, ast.BitOr)) for d in ds):
+                return None
+            grown = any(d.kind == 'aug' for d in ds) or not same(strip_seq(v), tpred)
+            for n_ in walk_no_nested(f.node):
+                if isinstance(n_, ast.Call) and isinstance(n_.func, ast.Attribute) and isinstance(n_.func.value, ast.Name) and \
+                        n_.func.value.id == x.id:
+                    if n_.func.attr in ('extend', 'append', 'update', 'add', 'insert'):
+                        grown = True
+                    elif n_.func.attr not in ('copy', 'count', 'index'):
+                        return None
+            return 'superset' if grown else 'alias'
+
+        helper_rel = {}
+
+        def helper_relation(call):
+            """boolean helper h(t) that could not be inlined: {True: p, False: q} where p / q is the `t has predecessors`
+            state that every `return True` / `return False` of h requires (None = no requirement); None = not analysable"""
+            h = helper_of(ctx, f, call)
+            if h is None:
+                return None
+            sub = _bind(h, call)
+            prm = next((k_ for k_, a_ in (sub or {}).items() if isinstance(a_, ast.Name) and a_.id == t), None)
+            if prm is None:
+                return None
+            hp = ast.parse(f"{prm}.predecessors", mode='eval').body
+            # every mention of the task's predecessors inside h must be a recognised emptiness test of an `if`
+            occ = {id(n_) for n_ in walk_no_nested(h.node, include_lambdas=True) if isinstance(n_, ast.Attribute) and same(n_, hp)}
+            seen_occ = set()
+            for st_ in walk_no_nested(h.node):
+                if isinstance(st_, ast.If):
+                    def atoms_(e_):
+                        if isinstance(e_, ast.BoolOp):
+                            return [y for v_ in e_.values for y in atoms_(v_)]
+                        if isinstance(e_, ast.UnaryOp) and isinstance(e_.op, ast.Not):
+                            return atoms_(e_.operand)
+                        return [e_]
+                    for a_ in atoms_(st_.test):
+                        em2 = emptiness(a_)
+                        if (em2 is not None and same(strip_seq(em2[0]), hp)) or same(strip_seq(a_), hp):
+                            seen_occ |= {id(n_) for n_ in ast.walk(a_)}
+            if occ - seen_occ:
+                return None
+            req = {True: [], False: []}
+            rets = [r for r in walk_no_nested(h.node) if isinstance(r, ast.Return)]
+            if not rets or any(p_.exit == 'fall' for p_ in paths(h.body, {})):
+                return None
+            for r in rets:
+                if not (isinstance(r.value, ast.Constant) and isinstance(r.value.value, bool)):
+                    return None
+                state = None
+                for a_, pol_ in facts.node_conditions(ctx.prog, h, r, ctx.typer):
+                    em2 = emptiness(a_)
+                    if em2 is not None and same(strip_seq(em2[0]), hp):
+                        state = (not em2[1]) if pol_ else em2[1]
+                    elif same(strip_seq(a_), hp):
+                        state = pol_
+                req[r.value.value].append(state)
+            return {v: (xs[0] if xs and all(x == xs[0] for x in xs) else None) for v, xs in req.items()}
+
         def norm(atom):
+            if isinstance(atom, ast.Call) and helper_of(ctx, f, atom) is not None:
+                helper_rel[src(atom)] = helper_relation(atom)
+                return src(atom), True
             em_ = emptiness(atom)
             if em_ is not None and same(strip_seq(em_[0]), tpred):
                 return 'haspreds', not em_[1]
             if same(strip_seq(atom), tpred):
                 return 'haspreds', True
+            x_ = strip_seq(em_[0]) if em_ is not None else (atom if isinstance(atom, ast.Name) else None)
+            kind = grows_from_preds(x_) if x_ is not None else None
+            if kind == 'alias':
+                return 'haspreds', (not em_[1]) if em_ is not None else True
+            if kind == 'superset':
+                key = f"{x_.id} is non-empty ({x_.id} = the task's predecessors plus further elements)"
+                supersets[key] = x_.id
+                return key, (not em_[1]) if em_ is not None else True
             return src(atom), True
         fms = []
         for p in ps:
@@ -1499,10 +1616,22 @@ def check_network(ctx, o, osk):
             o.undecided(f, T, T, "too many distinct conditions in the task loop")
             continue
         local = {d.var for d in flow_of(f).defs if d.kind != 'param' and d.var != t}
-        opaque_keys = [k for k in keys if k != 'haspreds' and
-                       ({n.id for n in ast.walk(ast.parse(k, mode='eval')) if isinstance(n, ast.Name)} & local)]
+        def names_of(k):
+            try:
+                tree = ast.parse(k, mode='eval')
+            except SyntaxError:
+                return set()
+            bound = {x.id for n in ast.walk(tree) if isinstance(n, ast.comprehension) for x in ast.walk(n.target)
+                     if isinstance(x, ast.Name)}
+            return {n.id for n in ast.walk(tree) if isinstance(n, ast.Name)} - bound
+        opaque_keys = [k for k in keys if k != 'haspreds' and k not in supersets and
+                       ((names_of(k) & local) or (k in helper_rel and helper_rel[k] is None))]
         problems = {}
         for asg in assignments(keys):
+            if any(asg['haspreds'] and not asg[k] for k in supersets):
+                continue        # a superset of the predecessors cannot be empty when the task has predecessors
+            if any(rel is not None and rel[asg[k]] is not None and rel[asg[k]] != asg['haspreds'] for k, rel in helper_rel.items()):
+                continue        # the helper returns this value only for the other predecessor state
             hit = [p for p, fm in zip(ps, fms) if holds(fm, asg)]
             if len(hit) != 1:
                 continue
@@ -1665,6 +1794,16 @@ def check_dhtmlx(ctx, O):
         return
     P = m['p']
     items = dict_items(P) if isinstance(P, ast.Dict) else None
+    if items is not None and {'data', 'links'} <= set(items):
+        for k in ('data', 'links'):
+            pth = attr_path(items[k]) if isinstance(items[k], ast.Attribute) else None
+            if pth and pth.split('.')[0] == s:
+                oj.site(f, ret, f"payload = json.dumps({{.., '{k}': {unmangle(pth)}}})")
+                o.refute(f, ret, f"payload {k}: {unmangle(pth)}",
+                         f"the `{k}` list of the payload is the instance attribute `{unmangle(pth)}`, not a list created by this "
+                         f"call: it is not emptied between renderings, so a second to_html()/_repr_html_() repeats every "
+                         f"{'entry' if k == 'data' else 'link'} (expected a fresh local list per call)")
+                return
     if items is None or not {'data', 'links'} <= set(items) or not all(isinstance(items[k], ast.Name) for k in ('data', 'links')):
         oj.undecided(f, ret, P, "json.dumps argument is not a dict literal {'data': <list>, 'links': <list>}")
         return
